@@ -269,7 +269,11 @@ async fn current_manifest_path(
     let manifest_files = object_store.list(Some(base.child(VERSIONS_DIR)));
 
     let mut valid_manifests = manifest_files.try_filter_map(|res| {
-        if let Some(scheme) = ManifestNamingScheme::detect_scheme(res.location.filename().unwrap())
+        let filename = res.location.filename().unwrap();
+        // Detached manifests (which have no version number in this sequence) are
+        // never the latest version.
+        if let Some(scheme) = ManifestNamingScheme::detect_scheme(filename)
+            .filter(|scheme| scheme.parse_version(filename).is_some())
         {
             future::ready(Ok(Some((scheme, res))))
         } else {
